@@ -33,7 +33,7 @@ PROPS = ["Transparent", "SameOperationsModuloKnown", "CacheOnlyInEval", "CallFil
 INVS = ["TypeOK", "TrainingHasNoCache", "CacheIsCurrent"]
 
 
-def consts(alias, lad, load=True, apply_=True, train=True, inplace=False):
+def consts(alias, lad, load=True, apply_=True, train=True, inplace=False, copy_=True):
     """load / apply_ / train: True (the step drops the cache), False (never), "either" (permissive)."""
     b = lambda x: "TRUE" if x else "FALSE"
     sset = lambda x: "{TRUE, FALSE}" if x == "either" else "{%s}" % b(x)
@@ -43,6 +43,7 @@ def consts(alias, lad, load=True, apply_=True, train=True, inplace=False):
         "LoadInvalidates": sset(load),
         "ApplyInvalidates": sset(apply_),
         "TrainInvalidates": sset(train),
+        "CopyDrops": sset(copy_),
         "WithInplace": b(inplace),
     }
 
@@ -234,6 +235,22 @@ class Driver:
             self.dt = d
             ev["d"] = d
             self.bw_since_fill = False
+        elif name == "Copy":
+            import copy as _copy
+
+            try:
+                tgt = _copy.deepcopy(self.box if self.variant == "parent" else m)
+                o = "ok"
+            except Exception as e:  # noqa
+                tgt, o = None, "raise_copy"
+                fail = {"outcome": o, "detail": "copy.deepcopy of the transform raised %s (the uncached transform copies in every state)" % repr(e)[:160], "prior_cached_backward": self.bw_since_fill}
+            if tgt is not None:
+                if self.variant == "parent":
+                    self.box, self.m = tgt, tgt._transforms[0]
+                else:
+                    self.m = tgt
+                self.opt = torch.optim.SGD(self.m.parameters(), lr=self.opt.param_groups[0]["lr"])
+            ev["o"] = o
         elif name == "Call":
             dir_, bw = str(args[0]), bool(args[1])
             ev.update(dir=dir_, bw=bw)
@@ -405,13 +422,14 @@ def main(run, replay=None):
     for alias, lad in shapes:
         res = T.run_tlc("LinearCache", T.cfg(constants=consts(alias, lad), invariants=INVS, properties=PROPS, view="View"), name="lc_repaired")
         run.model_must_hold(res, "LinearCache repaired alias=%s lad=%s" % (alias, lad))
-        run.add_tlc(res, "repaired design alias=%s ladsaves=%s" % (alias, lad), require_actions=["Train", "Eval", "UseCache", "Call", "Load", "ToDtype"])
+        run.add_tlc(res, "repaired design alias=%s ladsaves=%s" % (alias, lad), require_actions=["Train", "Eval", "UseCache", "Call", "Load", "ToDtype", "Copy"])
     # (S') the spec discriminates: designs without invalidation violate Transparent / SameOperations
     derived = []
     for label, kw, prop in [
         ("no invalidation on load_state_dict", dict(load=False), "Transparent"),
         ("no invalidation on dtype conversion", dict(apply_=False), "SameOperationsModuloKnown"),
         ("no invalidation on train()", dict(train=False), "Transparent"),
+        ("cached tensors deep-copied with the module", dict(copy_=False), "CopyWorks"),
         ("repeated backward (known finding)", dict(), "SameOperations"),
     ]:
         res = T.run_tlc("LinearCache", T.cfg(constants=consts(False, True, **kw), properties=[prop], view="View"), name="lc_broken", coverage=False)
@@ -425,7 +443,7 @@ def main(run, replay=None):
     for alias, lad in shapes:
         res = T.run_tlc(
             "LinearCache",
-            T.cfg(constants=consts(alias, lad, load="either", apply_="either", train="either"), view="View"),
+            T.cfg(constants=consts(alias, lad, load="either", apply_="either", train="either", copy_="either"), view="View"),
             dot=True,
             name="lc_permissive",
             coverage=False,
@@ -486,7 +504,7 @@ def main(run, replay=None):
     run.exhaustive = True
     run.assumptions = [
         "parameter versions abstracted to {current, stale}; the uncached twin built from the same working tree is the oracle",
-        "alphabet = the property's: train, eval, use_cache, forward, inverse, forward/inverse+backward, optimiser step in training mode, load_state_dict, dtype conversion",
+        "alphabet = the property's: train, eval, use_cache, forward, inverse, forward/inverse+backward, optimiser step in training mode, load_state_dict, dtype conversion; plus copy.deepcopy of the transform (an operation of the uncached transform)",
         "test-suite leg: Linear objects as the repository's tests use them (mocked subclasses: occupancy and flags only), recorded by vcore.suite_rec and validated by the same trace specification",
         "TLC 1.8 and the TLA+ value parser are trusted",
     ]
